@@ -276,11 +276,11 @@ UNIT = {
                  # C1: closures get typed heads and contracts, their BODIES are the real text (captured); the adapters are called
                  # through the wrappers above.  The enclosing arm is part of the anchor (only / except use the same adapter).
                  ("X6", r"format!\(\"\{\}\{\}\", (\w+), (\w+)\)", r"std_concat(\1, \2)", 1),
-                 ("X3s", r"(ImportSetBody::Only\(import_set, identifiers\) => \{\s*let id_set = [^;]*;\s*)Ok\(((?:[^;()]|\((?:[^()]|\([^()]*\))*\))+?)\s*\.into_iter\(\)\s*\.filter\(\|\(name, _\)\| ([^\n]+?)\)\s*\.collect\(\)\)",
+                 ("X3s", r"(ImportSetBody::Only\(import_set, identifiers\) => \{\s*let \w+ = [^;]*;\s*)Ok\(((?:[^;()]|\((?:[^()]|\([^()]*\))*\))+?)\s*\.into_iter\(\)\s*\.filter\(\|\(name, _\)\| ([^\n]+?)\)\s*\.collect\(\)\)",
                   r"\1Ok(std_filter_collect(\2, "
                   r"|b: &(String, Value<R>)| -> (k: bool) ensures k == listed(identifiers@, b.0@) { let (name, _x) = b; \3 }, "
                   r"Ghost(|b: (String, Value<R>)| listed(identifiers@, b.0@))))", 1, "S"),
-                 ("X3s", r"(ImportSetBody::Except\(import_set, identifiers\) => \{\s*let id_set = [^;]*;\s*)Ok\(((?:[^;()]|\((?:[^()]|\([^()]*\))*\))+?)\s*\.into_iter\(\)\s*\.filter\(\|\(name, _\)\| ([^\n]+?)\)\s*\.collect\(\)\)",
+                 ("X3s", r"(ImportSetBody::Except\(import_set, identifiers\) => \{\s*let \w+ = [^;]*;\s*)Ok\(((?:[^;()]|\((?:[^()]|\([^()]*\))*\))+?)\s*\.into_iter\(\)\s*\.filter\(\|\(name, _\)\| ([^\n]+?)\)\s*\.collect\(\)\)",
                   r"\1Ok(std_filter_collect(\2, "
                   r"|b: &(String, Value<R>)| -> (k: bool) ensures k == !listed(identifiers@, b.0@) { let (name, _x) = b; \3 }, "
                   r"Ghost(|b: (String, Value<R>)| !listed(identifiers@, b.0@))))", 1, "S"),
@@ -289,7 +289,7 @@ UNIT = {
                   r"|b: (String, Value<R>)| -> (o: (String, Value<R>)) ensures o.1 == b.1 && o.0@ == prefix@ + b.0@ "
                   r"{ let (name, value) = b; \3 }, "
                   r"Ghost(|b: (String, Value<R>), o: (String, Value<R>)| o.1 == b.1 && o.0@ == prefix@ + b.0@)))", 1, "S"),
-                 ("X3s", r"(ImportSetBody::Rename\(import_set, renames\) => \{\s*let id_map = [^;]*;\s*)Ok\(((?:[^;()]|\((?:[^()]|\([^()]*\))*\))+?)\s*\.into_iter\(\)\s*\.map\(\|\(name, value\)\| (match id_map\.get\(&name\) \{.*?\n\s*\})\)\s*\.collect\(\)\)",
+                 ("X3s", r"(ImportSetBody::Rename\(import_set, renames\) => \{\s*let \w+ = [^;]*;\s*)Ok\(((?:[^;()]|\((?:[^()]|\([^()]*\))*\))+?)\s*\.into_iter\(\)\s*\.map\(\|\(name, value\)\| (match \w+\.get\(&name\) \{.*?\n\s*\})\)\s*\.collect\(\)\)",
                   r"\1Ok(std_map_collect(\2, "
                   r"|b: (String, Value<R>)| -> (o: (String, Value<R>)) ensures o.1 == b.1 && o.0@ == renamed(renames@, b.0@) "
                   r"{ let (name, value) = b; \3 }, "
